@@ -74,7 +74,11 @@ CHECKS = {
             'unmatched delimiter inserted at every token boundary outside comments of generated '
             'verbatim-free documents must be rejected. Enumerates all faults of the stated family '
             'on the generated documents; documents themselves are sampled. Error locations are checked '
-            'under non-default walker line/column offsets too; thorough adds 16 atheris campaigns.',
+            'under non-default walker line/column offsets too; thorough adds 16 atheris campaigns. '
+            'Every accepted soup is also audited: each active brace, dollar sign and \\begin / \\end '
+            'token (independent lexer, outside verbatim spans, where the innermost node has the '
+            'feature enabled) must be the delimiter of a group / formula / environment node of the '
+            'result -- a swallowed or unclosed token is an accepted unbalanced input.',
             'Parity argument for rejection; token boundaries from the independent mini tokenizer; '
             'documents are verbatim-free so every boundary is outside verbatim text.',
             'DESIGN.md 5 C05'),
@@ -86,7 +90,10 @@ CHECKS = {
             'whenever strict succeeds, and keeps the nodes of a well-formed prefix before a stray '
             'closing token (also when the error is nested in a later construct) and, for documents with '
             'nothing closed at the end of input, every chars node that precedes the strict error '
-            'position. Thorough adds 16 atheris campaigns with the same oracle inside the target.',
+            'position. Generic form over all four contexts: the top-level nodes (but the last two) of '
+            'the longest strictly parsable token prefix open the tolerant result unchanged (135k '
+            'constructed prefix + breaker + tail inputs in quick). Thorough adds 16 atheris '
+            'campaigns with the same oracle inside the target.',
             'Termination = bound on token-reader calls (200*(n+8)); prefix preservation is checked '
             'for prefixes closed by a group.',
             'DESIGN.md 5 C06'),
@@ -138,7 +145,9 @@ CHECKS = {
             'ensuremath / environments to depth 5 have every node\'s recorded mode equal to the '
             'mode implied by the generating AST; a table sweep of every math environment and '
             'text-mode macro of the default database in six hosts, with blanks between \\begin / '
-            '\\end and the name, including the mode of what follows the environment.',
+            '\\end and the name, including the mode of what follows the environment; a scoping sweep '
+            '(a state-switching macro inside ten kinds of construct x five hosts: mode and settings '
+            'before / inside / after the switch / after the construct).',
             'Reference parser and AST mode rules transcribe the documented behaviour (expected '
             'closing delimiter first, longest delimiter otherwise; argument and body deltas).',
             'DESIGN.md 5 C10'),
@@ -175,7 +184,8 @@ CHECKS = {
             'balance, no comment / environment / foreign math node, ASCII-only where promised, '
             'ValueError exactly where the tables say; inputs with unknown characters also with the '
             'unknown_char_warning option left at its default, and a quarter of the default-rule-set '
-            'inputs also through the module-level shorthand after a call with other options.',
+            'inputs also through the module-level shorthand after a call with other options; one '
+            'shard runs after a pylatexenc-1 style edit of the module-level utf82latex dictionary.',
             'Default walker context for the strict parse; 13 combining characters of the '
             'unicode-xml table are listed known findings and excluded by construction.',
             'DESIGN.md 5 C13'),
@@ -210,7 +220,10 @@ CHECKS = {
             'every present/absent pattern with and without whitespace, plus the documented legacy '
             'nodeoptarg/nodeargs views; get_latex_expression with strict_braces None/False '
             '(documented empty result = failing), explicit parsing_state=, tolerant walkers, call '
-            'strings with a math delimiter where a mandatory argument is expected.',
+            'strings with a math delimiter where a mandatory argument is expected; environment '
+            'spellings also with is_math_mode=True (recorded modes compared); args_math_mode '
+            'against per-argument mode deltas; combined get_token() options; all entry points in '
+            'sequence on one walker object against a walker of their own.',
             'Documented legacy post-processing (nodeargd=None from get_latex_expression, math mode '
             'assumed open for stop_upon_closing_mathmode) is part of the oracle.',
             'DESIGN.md 5 C16'),
@@ -235,7 +248,8 @@ CHECKS = {
             'and <= 5/6 tokens for parse_keyval_content (20 option sets), plus random lists with None '
             'entries; the argument views (get_content_nodelist with the documented double-group '
             'rule, parse_content_as_keyval), filter() under 24 flag sets and get_content_as_chars() '
-            'on all lists <= 4/5 tokens over two further alphabets.',
+            'on all lists <= 4/5 tokens over two further alphabets; regex separators that look to '
+            'the left (lookbehind, anchor).',
             'Top-level chars spans come from the strict parse; max_split with keep_empty=False is '
             'judged by a validity predicate, by the letter of the statement.',
             'DESIGN.md 5 C18'),
